@@ -252,8 +252,10 @@ def run(ctx, rep, tier):
         rep.bad("C01.f", "LoopNode.convert", "break rerouting loop", "loop over the transitions carrying this loop's break action not found")
     else:
         stm = [ast.unparse(s) for s in loop.body]
-        want = ["transition.to(self.end_state)", "transition.actions.remove(self.break_action)", "transition.actions.extend(self.after_break_actions)", "should_try_to_append = True"]
-        rep.check(stm == want, "C01.f", "LoopNode.convert", "reroute to end_state; drop the break; append (not prepend) the after-break actions", f"break rerouting is {stm}")
+        want = ["transition.to(self.end_state)", "del transition.actions[transition.actions.index(self.break_action):]", "transition.actions.extend(self.after_break_actions)", "should_try_to_append = True"]
+        rep.check(stm == want, "C01.f", "LoopNode.convert", "reroute to end_state; drop the break AND what stands behind it; append (not prepend) the after-break actions",
+                  f"break rerouting is {stm}: the actions behind the break on its transition (statements that follow the breaking clause / try body inside the loop) must go with it - "
+                  "`loop { case { \"c\" -> { break; } \"a\" -> {} } y = [y + 1]; \"b\"; }` counts once more on \"c\" (F-83)")
     bret = model.func("BreakAction.get_target_override_targets").body[-1]
     bt = ast.unparse(bret)
     bv = bret.value if isinstance(bret, ast.Return) else None
